@@ -11,7 +11,7 @@ var props = map[string]PropSpec{
 			{Name: "solver.VP_C01_cnf_slice", Kind: "E", Params: map[string]int{"n": 2, "m": 3, "k": 2, "cert": 1, "smalldb": 1}, Bounds: "n<=2 variables, m<=3 clauses, k<=2 literals each, literals symbolic in [-n,n]\\{0}; Certified on/off; learnt-clause limit default/1", Require: []string{"sat", "unsat", "parse-unsat"}},
 			{Name: "solver.VP_C01_cnf_slice", Kind: "E", Params: map[string]int{"n": 2, "m": 2, "k": 3}, Bounds: "n<=2, m<=2 clauses, k<=3 literals each (duplicate literals and tautologies inside ternary clauses)", Require: []string{"sat", "unsat", "parse-unsat"}},
 			{Name: "solver.VP_C01_cnf_skeleton", Kind: "E", Params: map[string]int{"maxsigns": 10, "smalldb": 1}, Bounds: "4 fixed clause skeletons over 4-6 variables (pigeon-hole 3/2, implication cycle, 3-SAT with 8 clauses, xor chain) whose first 10 literal signs are symbolic; learnt-clause limit default/1; these need conflict analysis, backjumping and clause learning", Require: []string{"sat", "unsat", "learned"}},
-			{Name: "solver.VP_C01_cnf_skeleton", Kind: "E", Fuel: 20000000, Params: map[string]int{"big": 3, "maxsigns": 9, "smalldb": 1, "cert": 1}, Bounds: "pigeon-hole 4/3 (12 variables, 22 clauses) and two fixed random 3-SAT skeletons (8 variables / 34 clauses, 10 variables / 42 clauses; VERIF_SEED picks them) with the first 9 literal signs symbolic; learnt-clause limit default/1; answers validated through themselves: Sat models against the clauses, Unsat answers through the certificate replayed by the independent RUP procedure", Require: []string{"sat", "unsat", "learned", "deleted", "ten-conflicts"}},
+			{Name: "solver.VP_C01_cnf_skeleton", Kind: "E", Fuel: 20000000, Params: map[string]int{"big": 3, "maxsigns": 9, "smalldb": 1, "cert": 1}, Bounds: "pigeon-hole 4/3 (12 variables, 22 clauses) and two fixed random 3-SAT skeletons (8 variables / 34 clauses, 10 variables / 42 clauses; VERIF_SEED picks them) with the first 9 literal signs symbolic; learnt-clause limit default/1; answers validated through themselves: Sat models against the clauses, Unsat answers through the certificate replayed by the independent RUP procedure", Require: []string{"sat", "unsat", "learned"}},
 			{Name: "solver.VP_C01_cnf_dimacs", Kind: "E", Params: map[string]int{"n": 2, "m": 1, "k": 2}, Bounds: "DIMACS stream with symbolic sign/digit/separator bytes, <=1 clause of <=2 literals, 0..1 unused declared variables, comments, CRLF, missing final newline: ParseCNF -> New -> Solve", Require: []string{"sat", "unsat"}},
 			{Name: "solver.VP_C01_cnf_dimacs", Kind: "E", Params: map[string]int{"n": 2, "m": 2, "k": 2, "layout": 0}, Bounds: "DIMACS stream, <=2 clauses of <=2 literals, plain layout", Require: []string{"sat", "unsat"}},
 		},
@@ -21,7 +21,7 @@ var props = map[string]PropSpec{
 			{Name: "solver.VP_C01_cnf_slice", Kind: "E", Params: map[string]int{"n": 3, "m": 3, "k": 2, "cert": 1, "smalldb": 1}, Bounds: "n<=3, m<=3, k<=2", Require: []string{"sat", "unsat", "parse-unsat"}},
 			{Name: "solver.VP_C01_cnf_slice", Kind: "E", Params: map[string]int{"n": 3, "m": 2, "k": 3, "cert": 1, "smalldb": 1}, Bounds: "n<=3, m<=2, k<=3", Require: []string{"sat", "unsat", "parse-unsat"}},
 			{Name: "solver.VP_C01_cnf_skeleton", Kind: "E", Params: map[string]int{"maxsigns": 14, "smalldb": 1}, Bounds: "skeletons with 14 symbolic signs", Require: []string{"sat", "unsat", "learned"}},
-			{Name: "solver.VP_C01_cnf_skeleton", Kind: "E", Fuel: 200000000, Params: map[string]int{"big": 4, "maxsigns": 11, "smalldb": 1, "cert": 1}, Bounds: "pigeon-hole 4/3 and 5/4, two random 3-SAT skeletons, 11 symbolic signs", Require: []string{"sat", "unsat", "learned", "deleted", "ten-conflicts"}},
+			{Name: "solver.VP_C01_cnf_skeleton", Kind: "E", Fuel: 200000000, Params: map[string]int{"big": 4, "maxsigns": 11, "smalldb": 1, "cert": 1}, Bounds: "pigeon-hole 4/3 and 5/4, two random 3-SAT skeletons, 11 symbolic signs", Require: []string{"sat", "unsat", "learned"}},
 			{Name: "solver.VP_C01_cnf_skeleton", Kind: "E", Params: map[string]int{"maxsigns": 6, "nskel": 2, "steer": 1}, Bounds: "first two skeletons, 6 symbolic signs, every initial phase assignment", Require: []string{"sat", "unsat", "learned"}},
 			{Name: "solver.VP_C01_cnf_dimacs", Kind: "E", Params: map[string]int{"n": 2, "m": 2, "k": 1}, Bounds: "DIMACS stream, <=2 clauses of <=1 literal, all layouts", Require: []string{"sat", "unsat"}},
 		},
@@ -86,7 +86,7 @@ var props = map[string]PropSpec{
 			{Name: "solver.VP_C06_cert_e2e", Kind: "E", Params: map[string]int{"n": 2, "m": 3, "k": 2, "smalldb": 1}, Bounds: "n<=2, <=3 clauses x <=2 symbolic literals; Certified with buffered CertChan; learnt-clause limit default/1; uncertified twin on a copy; certificate replayed by an independent RUP procedure", Require: []string{"sat", "unsat", "line"}},
 			{Name: "solver.VP_C06_cert_e2e", Kind: "E", Params: map[string]int{"n": 3, "m": 2, "k": 3, "steer": 1}, Bounds: "n<=3, <=2 clauses x <=3 literals, every initial phase assignment", Require: []string{"sat", "unsat"}},
 			{Name: "solver.VP_C01_cnf_skeleton", Kind: "E", Params: map[string]int{"maxsigns": 10, "smalldb": 1, "cert": 1}, Bounds: "4 skeletons over 4-6 variables with 10 symbolic signs (certificates with learned clauses, deletion with limit 1), replayed by the independent RUP procedure", Require: []string{"sat", "unsat", "learned", "line"}},
-			{Name: "solver.VP_C01_cnf_skeleton", Kind: "E", Fuel: 20000000, Params: map[string]int{"big": 3, "maxsigns": 9, "smalldb": 1, "cert": 1}, Bounds: "pigeon-hole 4/3 and two random 3-SAT skeletons (8-12 variables) with 9 symbolic signs: certificates with tens of learned clauses and clause deletion", Require: []string{"sat", "unsat", "learned", "line", "ten-conflicts"}},
+			{Name: "solver.VP_C01_cnf_skeleton", Kind: "E", Fuel: 20000000, Params: map[string]int{"big": 3, "maxsigns": 9, "smalldb": 1, "cert": 1}, Bounds: "pigeon-hole 4/3 and two random 3-SAT skeletons (8-12 variables) with 9 symbolic signs: certificates with tens of learned clauses and clause deletion", Require: []string{"sat", "unsat", "learned", "line"}},
 		},
 		Thorough: []HarnessRun{
 			{Name: "solver.VP_C06_cert_e2e", Kind: "E", Params: map[string]int{"n": 3, "m": 3, "k": 2, "smalldb": 1}, Bounds: "n<=3, <=3 clauses x <=2 literals", Require: []string{"sat", "unsat", "line"}},
